@@ -13,3 +13,4 @@ import RelicVerif.Props.C08
 import RelicVerif.Props.C11
 import RelicVerif.Props.C12
 import RelicVerif.Props.C04
+import RelicVerif.Props.C06
